@@ -45,6 +45,11 @@ pub fn generate(
     ctx: &Context,
     constr: &mut ConstrBuilder,
 ) -> Constrained {
+    if !env.is_expr && uses_value_of_children(ast) {
+        let env = generate(ast, &env.is_expr(true), ctx, constr)?;
+        return Ok(env.is_expr(false));
+    }
+
     match &ast.node {
         Block { statements } => gen_vec(statements, env, true, ctx, constr),
 
@@ -104,6 +109,31 @@ pub fn generate(
             Ok(env.clone())
         }
     }
+}
+
+/// True if the children of the node are arguments, operands, elements, or an assigned or returned
+/// value: an if or match among them is then an expression, also if the node itself is a statement.
+fn uses_value_of_children(ast: &AST) -> bool {
+    !matches!(
+        &ast.node,
+        Block { .. }
+            | Class { .. }
+            | TypeDef { .. }
+            | TypeAlias { .. }
+            | Condition { .. }
+            | VariableDef { .. }
+            | FunDef { .. }
+            | FunArg { .. }
+            | ExpressionType { .. }
+            | AnonFun { .. }
+            | With { .. }
+            | IfElse { .. }
+            | Match { .. }
+            | Handle { .. }
+            | Case { .. }
+            | For { .. }
+            | While { .. }
+    )
 }
 
 /// Generate constraint for vector of ASTs.
